@@ -100,7 +100,7 @@ def parseOp (ws : List String) : Option Op :=
   | ["aback", v] => do pure (.aback (← v.toNat?))
   | _ => none
 
-/-! The pointer-level model (PtrModel.lean) of the two List variables is run in lockstep: every List op is
+/-! The pointer-level model (PtrModel.lean) of the two List and the two PoolList variables is run in lockstep: every op is
     translated into heap-level `insert/remove/clear/sort` calls (composite ops — list insertion, copy,
     assignment — into the sequence of `insert`s the C++ code performs; `swap` exchanges the two heaps).  After
     every op the chain, the values, the back links, the free list and the block count read off the heap must
@@ -108,12 +108,18 @@ def parseOp (ws : List String) : Option Op :=
     implementation never prints, so the correspondence fails). -/
 
 structure PtrPair where
-  h0 : Ptr.PList := Ptr.init
+  h0 : Ptr.PList := Ptr.init      -- List variables
   h1 : Ptr.PList := Ptr.init
+  h2 : Ptr.PList := Ptr.init      -- PoolList variables (PoolList.hpp repeats the relinking code of List.hpp:
+  h3 : Ptr.PList := Ptr.init      --  `append` = allocateFreeItem + linkFreeItem in front of `_end`)
   ok : Bool := true
 
-def PtrPair.get (pp : PtrPair) (v : Nat) : Ptr.PList := if v = 0 then pp.h0 else pp.h1
-def PtrPair.set (pp : PtrPair) (v : Nat) (h : Ptr.PList) : PtrPair := if v = 0 then { pp with h0 := h } else { pp with h1 := h }
+/-- heaps 0,1 = List variables, 2,3 = PoolList variables -/
+def PtrPair.get (pp : PtrPair) (v : Nat) : Ptr.PList :=
+  if v = 0 then pp.h0 else if v = 1 then pp.h1 else if v = 2 then pp.h2 else pp.h3
+def PtrPair.set (pp : PtrPair) (v : Nat) (h : Ptr.PList) : PtrPair :=
+  if v = 0 then { pp with h0 := h } else if v = 1 then { pp with h1 := h }
+  else if v = 2 then { pp with h2 := h } else { pp with h3 := h }
 
 def ptrRunOps (h : Ptr.PList) : List Ptr.POp → Option Ptr.PList
   | [] => some h
@@ -139,6 +145,12 @@ def ptrOps (st : State) (op : Op) : Option (Nat × List Ptr.POp) :=
   | .lclear v => some (v, [.clear])
   | .lassign v => some (v, .clear :: insertsAt 0 (other v))
   | .lsort v => some (v, [.sort])
+  | .pappend v x => some (2 + v, [.insert (st.getP v).size x])
+  | .premove v k => some (2 + v, [.remove k])
+  | .premovev v k => some (2 + v, [.remove k])
+  | .premoveFront v => some (2 + v, [.remove 0])
+  | .premoveBack v => some (2 + v, [.remove ((st.getP v).size - 1)])
+  | .pclear v => some (2 + v, [.clear])
   | _ => none
 
 /-- read the chain off the heap: values and node ids front to back, checking the back links -/
@@ -181,6 +193,7 @@ def ptrAdvance (pp : PtrPair) (before after : State) (op : Op) : PtrPair :=
   let pp1 : PtrPair :=
     match op with
     | .lswap v => (pp.set v (pp.get (1 - v))).set (1 - v) (pp.get v)
+    | .pswap v => (pp.set (2 + v) (pp.get (2 + (1 - v)))).set (2 + (1 - v)) (pp.get (2 + v))
     | .lcopy v =>
       match ptrRunOps Ptr.init (insertsAt 0 (before.getL (1 - v)).vals) with
       | some h => pp.set v h
@@ -192,8 +205,9 @@ def ptrAdvance (pp : PtrPair) (before after : State) (op : Op) : PtrPair :=
         match ptrRunOps (pp.get v) ops with
         | some h => pp.set v h
         | none => { pp with ok := false }
-  let pp2 := { pp1 with h0 := compact pp1.h0, h1 := compact pp1.h1 }
-  { pp2 with ok := pp2.ok && ptrAgrees pp2.h0 after.l0 && ptrAgrees pp2.h1 after.l1 }
+  let pp2 := { pp1 with h0 := compact pp1.h0, h1 := compact pp1.h1, h2 := compact pp1.h2, h3 := compact pp1.h3 }
+  { pp2 with ok := pp2.ok && ptrAgrees pp2.h0 after.l0 && ptrAgrees pp2.h1 after.l1 &&
+                  ptrAgrees pp2.h2 after.p0 && ptrAgrees pp2.h3 after.p1 }
 
 def allShown : List Show := [.l 0, .l 1, .p 0, .p 1, .a 0, .a 1]
 
